@@ -7,6 +7,9 @@ import Mathlib.Order.Defs.LinearOrder
 import Mathlib.Algebra.Order.Field.Basic
 import Mathlib.Data.List.Lex
 import Mathlib.Data.List.Induction
+import Mathlib.Algebra.Order.Ring.Rat
+import Mathlib.Algebra.Order.Field.Rat
+import Mathlib.Data.Rat.Defs
 
 set_option linter.unusedSectionVars false
 set_option linter.unusedSimpArgs false
@@ -284,9 +287,145 @@ theorem violates_not_valid (v : CFit α) (hv : violates v = true) : valid v.base
 
 end Constrained
 
+
+/-! ### Constrained fitness histories, weighted order lifted to tuples, dominance implies order -/
+
+section ConstrainedHistory
+variable {α : Type} [Mul α]
+
+/-- What "valid exactly while values are assigned and not deleted" means for a history that may also
+set the violation record: only assignments and deletions count, the last one decides. -/
+def cvalidSpec : List (COp α) → Bool → Bool
+  | [], b => b
+  | .set _ :: ops, _ => cvalidSpec ops true
+  | .del :: ops, _ => cvalidSpec ops false
+  | .setCv _ :: ops, b => cvalidSpec ops b
+
+/-- A constrained fitness is valid exactly while values are assigned and not deleted, whatever is done
+to its violation record in between. -/
+theorem cvalid_history (weights : List α) (hw : weights ≠ []) (f : CFit α) (ops : List (COp α))
+    (hops : ∀ o ∈ ops, ∀ v, o = COp.set v → v.length = weights.length) :
+    valid (crun weights f ops).base = cvalidSpec ops (valid f.base) := by
+  induction ops generalizing f with
+  | nil => rfl
+  | cons o ops ih =>
+    have hrest : ∀ o' ∈ ops, ∀ v, o' = COp.set v → v.length = weights.length :=
+      fun o' ho' => hops o' (by simp [ho'])
+    simp only [crun, List.foldl_cons] at *
+    cases o with
+    | set v =>
+      have hl := hops (COp.set v) (by simp) v rfl
+      have hne : weights.length ≠ 0 := by simpa using hw
+      rw [ih _ hrest]
+      have : valid (cstep weights f (COp.set v)).base = true := by
+        simp [cstep, setValues, hl, valid, CFit.base, hne]
+      rw [this]; rfl
+    | setCv cv => rw [ih _ hrest]; simp [cstep, cvalidSpec, CFit.base]
+    | del => rw [ih _ hrest]; simp [cstep, cvalidSpec, cdelValues, valid, CFit.base]
+
+/-- Deleting the values also clears the violation record: the fitness is then neither valid nor violating. -/
+theorem cdel_clears [LT α] [LE α] [DecidableEq α] [DecidableLT α] [DecidableLE α] (weights : List α) (f : CFit α) :
+    (cstep weights f COp.del).cv = none ∧ valid (cstep weights f COp.del).base = false ∧
+    violates (cstep weights f COp.del) = false := by
+  simp [cstep, cdelValues, valid, CFit.base, violates]
+
+end ConstrainedHistory
+
+example : cvalidSpec ([COp.set [1], COp.setCv (some [1]), COp.del, COp.setCv (some [1])] : List (COp Int)) false = false ∧
+    valid (crun [1] (⟨[], none⟩ : CFit Int) [COp.set [5], COp.setCv (some [1]), COp.del]).base = false ∧
+    valid (crun [1] (⟨[], none⟩ : CFit Int) [COp.del, COp.setCv (some [1]), COp.set [5]]).base = true := by decide
+
+section WeightedTuples
+variable {α : Type} [Field α] [LinearOrder α] [IsStrictOrderedRing α]
+
+/-- The order the statement describes: the first objective on which the raw values differ decides, and a
+negative weight makes the smaller raw value the better (greater) one. -/
+def WLex : List α → List α → List α → Prop
+  | w :: ws, v :: vs, v' :: vs' =>
+      (v ≠ v' ∧ (if 0 < w then v < v' else v' < v)) ∨ (v = v' ∧ WLex ws vs vs')
+  | _, _, _ => False
+
+/-- `<` on two fitnesses of the same class, expressed on the RAW values and the weights. -/
+theorem lt_weighted_iff (ws vs vs' : List α) (hl : vs.length = ws.length) (hl' : vs'.length = ws.length)
+    (hnz : ∀ w ∈ ws, w ≠ 0) :
+    lt (⟨List.zipWith (· * ·) vs ws⟩ : Fit α) ⟨List.zipWith (· * ·) vs' ws⟩ = true ↔ WLex ws vs vs' := by
+  simp only [lt]
+  induction ws generalizing vs vs' with
+  | nil =>
+    cases vs <;> cases vs' <;> simp_all [Py.tupleLt, WLex]
+  | cons w ws ih =>
+    cases vs with
+    | nil => simp at hl
+    | cons v vs =>
+      cases vs' with
+      | nil => simp at hl'
+      | cons v' vs' =>
+        have hw : w ≠ 0 := hnz w (by simp)
+        have hrest : ∀ x ∈ ws, x ≠ 0 := fun x hx => hnz x (by simp [hx])
+        have hl1 : vs.length = ws.length := by simpa using hl
+        have hl2 : vs'.length = ws.length := by simpa using hl'
+        simp only [List.zipWith_cons_cons, Py.tupleLt, WLex]
+        by_cases hv : v = v'
+        · subst hv; simp [ih vs vs' hl1 hl2 hrest]
+        · have hne : v * w ≠ v' * w := fun h => hv (mul_right_cancel₀ hw h)
+          simp only [hne, ↓reduceIte, decide_eq_true_eq, ne_eq, hv, not_false_eq_true, true_and, false_and, or_false]
+          rcases lt_or_gt_of_ne hw with hneg | hpos
+          · simp [not_lt.2 (le_of_lt hneg), mul_lt_mul_right_of_neg hneg]
+          · simp [hpos, mul_lt_mul_iff_left₀ hpos]
+
+/-- Single objective: with a negative weight `a > b` holds exactly when `a`'s raw value is smaller. -/
+theorem gt_single_neg (w v v' : α) (hw : w < 0) :
+    gt (⟨[v * w]⟩ : Fit α) ⟨[v' * w]⟩ = true ↔ v < v' := by
+  rw [gt_iff_swap]
+  have := lt_weighted_iff [w] [v'] [v] rfl rfl (by simp [ne_of_lt hw])
+  simp only [List.zipWith_cons_cons, List.zipWith_nil_right] at this
+  rw [this]
+  simp only [WLex, not_lt.2 (le_of_lt hw), ↓reduceIte, and_false, or_false, ne_eq]
+  constructor
+  · rintro ⟨_, h⟩; exact h
+  · intro h; exact ⟨ne_of_gt h, h⟩
+
+end WeightedTuples
+
+example : WLex ([1, -1] : List ℚ) [3, 5] [3, 4] ∧ ¬ WLex ([1, -1] : List ℚ) [3, 4] [3, 5] := by
+  have h : ¬ ((1 : ℚ) < 0) := by norm_num
+  constructor <;> simp [WLex, h] <;> decide
+
+section DominanceOrder
+variable {α : Type} [LinearOrder α]
+
+/-- Dominance (on all objectives, equal lengths) implies being strictly greater in the lexicographic
+order: a dominating fitness always compares `>`. -/
+theorem dominates_imp_gt (xs ys : List α) (hlen : xs.length = ys.length)
+    (h : dominatesLoop xs ys false = true) : lt (⟨ys⟩ : Fit α) ⟨xs⟩ = true := by
+  rw [dominatesLoop_iff] at h
+  obtain ⟨hall, hex⟩ := h
+  simp only [Bool.false_eq_true, false_or] at hex
+  simp only [lt]
+  induction xs generalizing ys with
+  | nil => simp at hex
+  | cons x xs ih =>
+    cases ys with
+    | nil => simp at hlen
+    | cons y ys =>
+      simp only [List.zip_cons_cons, List.mem_cons, forall_eq_or_imp, exists_eq_or_imp] at hall hex
+      simp only [Py.tupleLt]
+      by_cases hxy : y = x
+      · subst hxy
+        simp only [↓reduceIte]
+        rcases hex with h0 | h1
+        · exact absurd h0 (_root_.lt_irrefl _)
+        · exact ih ys (by simpa using hlen) hall.2 h1
+      · simp only [hxy, ↓reduceIte, decide_eq_true_eq]
+        exact lt_of_le_of_ne hall.1 hxy
+
+end DominanceOrder
+
+example : dominatesLoop ([3, -2] : List Int) [3, -5] false = true ∧ lt (⟨[3, -5]⟩ : Fit Int) ⟨[3, -2]⟩ = true := by decide
+
 /-! ### Non-vacuity: concrete instances of the hypotheses above -/
 
-example : violates (⟨[], some [true, false]⟩ : CFit Int) = true ∧
+example : violates (⟨[], some [1, 0]⟩ : CFit Int) = true ∧ violates (⟨[], some [1, -1]⟩ : CFit Int) = false ∧
     violates (⟨[3, -2], none⟩ : CFit Int) = false := by decide
 example : dominates (⟨[3, -2]⟩ : Fit Int) ⟨[3, -5]⟩ [0, 1] [0, 1] = true ∧
     dominates (⟨[3, -2]⟩ : Fit Int) ⟨[4, -5]⟩ [0, 1] [0, 1] = false ∧
